@@ -511,8 +511,11 @@ func generate(s *Script, st *state, c gengo.Context, obj *types.TypeName, alias 
 
 // RunSpec is one gengo invocation.
 type RunSpec struct {
-	Dir         string              `json:"dir"`           // module root
-	Cwd         string              `json:"cwd,omitempty"` // working directory relative to Dir ("" = the module root itself); entrypoints must then be import paths
+	Dir string `json:"dir"`           // module root
+	Cwd string `json:"cwd,omitempty"` // working directory relative to Dir ("" = the module root itself); entrypoints must then be import paths
+	// Retry: when the first Execute fails, Execute is called once more on the SAME context with these generators (what a
+	// caller does that repairs the cause and tries again)
+	Retry       []*Script           `json:"retry,omitempty"`
 	Entrypoints []string            `json:"entrypoints"`
 	All         bool                `json:"all,omitempty"`
 	Force       bool                `json:"force,omitempty"`
@@ -531,6 +534,10 @@ type RunResult struct {
 	Failed    bool   `json:"failed,omitempty"`    // Execute returned a non-nil error
 	Panic     string `json:"panic,omitempty"`
 	Calls     []Call `json:"calls,omitempty"`
+	// Retried: a second Execute was made on the same context with RunSpec.Retry (after the first one failed)
+	Retried     bool   `json:"retried,omitempty"`
+	RetryFailed bool   `json:"retryfailed,omitempty"`
+	RetryErr    string `json:"retryerr,omitempty"`
 }
 
 func snapshotOutputs(root, base string) map[string]string {
@@ -618,6 +625,22 @@ func Run(rs RunSpec) (res RunResult) {
 		res.Failed = true
 		res.Err = err.Error()
 		res.ErrSyntax = isScannerList(err)
+		if len(rs.Retry) > 0 {
+			var again []gengo.Generator
+			for _, s := range rs.Retry {
+				g, err := Build(s)
+				if err != nil {
+					panic(err.Error())
+				}
+				current[s.Name] = s
+				again = append(again, g)
+			}
+			res.Retried = true
+			if err := c.Execute(context.Background(), again...); err != nil {
+				res.RetryFailed = true
+				res.RetryErr = err.Error()
+			}
+		}
 	}
 	res.Calls = calls
 	return res
